@@ -42,6 +42,7 @@ func init() {
 		"math.Log":             ufMath("log"),
 		"math.Pow":             ufMath("pow"),
 		"math.Floor":           ufMath("floor"),
+		"math.Trunc":           ufMath("trunc"),
 		"math.Sinh":            ufMath("sinh"),
 		"math.Cosh":            ufMath("cosh"),
 		"math.Mod":             ufMath("mod"),
@@ -72,6 +73,23 @@ func init() {
 				tok.Lossy = fmt.Sprintf("%c_%d_%d", byte(fm.U), prec.Int(), bits.Int())
 			}
 			return x.appendValues(a[0].(SliceV), types.Typ[types.Uint8], []Value{tok})
+		},
+		// strconv.AppendInt(dst, n, 10) with a symbolic n: one number token whose
+		// text an OGC/JSON number parser reads back as float64(n) (correctly
+		// rounded decimal->binary conversion of an integer literal).
+		"strconv.AppendInt": func(x *Exec, fn *ssa.Function, a []Value) Value {
+			n, base := a[1].(*smt.Term), a[2].(*smt.Term)
+			if !base.IsConst() || base.Int() != 10 {
+				panic(x.unsupported("strconv.AppendInt with base other than 10"))
+			}
+			if n.IsConst() {
+				var vs []Value
+				for _, b := range []byte(strconv.FormatInt(n.Int(), 10)) {
+					vs = append(vs, x.C.IntC(8, int64(b)))
+				}
+				return x.appendValues(a[0].(SliceV), types.Typ[types.Uint8], vs)
+			}
+			return x.appendValues(a[0].(SliceV), types.Typ[types.Uint8], []Value{NumTok{F: x.C.FFromSInt(n)}})
 		},
 		"strconv.Itoa": func(x *Exec, _ *ssa.Function, a []Value) Value {
 			t := a[0].(*smt.Term)
